@@ -229,7 +229,22 @@ pub fn check_fill(case: &FillCase) -> Outcome {
         let bytes = &bytes_backing[b0..b0 + v.len() * case.nbytes];
         let (v_backing, v0) = placed(&v, case.int_align as usize, 8);
         let v_placed = &v_backing[v0..v0 + v.len()];
+        // half of the histories (with the context's own byte width) deliver through the documented pair
+        // `(FrameBuf, Context)` / nested `&mut` targets instead of filling buffer and context one by one
+        let paired = ctx_width_ok && case.seed % 2 == 0;
+        if paired {
+            out.class("delivery:through-(FrameBuf,Context)-pairs");
+        }
         let r = catch(|| {
+            if paired {
+                (&mut fb_int, &mut ctx_int).fill_interleaved(v_placed).map_err(|e| format!("{e:?}"))?;
+                if by_bytes {
+                    (&mut &mut fb_byte, &mut ctx_byte).fill_le_bytes(&bytes, case.nbytes).map_err(|e| format!("{e:?}"))?;
+                } else {
+                    (&mut fb_byte, &mut &mut ctx_byte).fill_interleaved(&v).map_err(|e| format!("{e:?}"))?;
+                }
+                return Ok::<(), String>(());
+            }
             fb_int.fill_interleaved(v_placed).map_err(|e| format!("{e:?}"))?;
             if by_bytes {
                 fb_byte.fill_le_bytes(&bytes, case.nbytes).map_err(|e| format!("{e:?}"))?;
